@@ -156,12 +156,123 @@ impl ElementVar {
             ensures="match r { Ok(e) => mode is Witness ==> exists|s: int| #[trigger] wit_rel_s(s, pv(e)), Err(_) => true }",
             tag="C14: the curve coordinates offered when an element is witnessed cannot be forged (any hint pair, any offered point)")],
             header_out="impl ElementVar"))
-    u = Unit(name=f"r1cs_fwd_{mode}", preludes=r1.base_preludes() + [("curve_spec.rs", None), ("r1cs.rs", None), ("r1cs_group.rs", None)],
+        # CurveVar::new_variable_omit_prime_order_check, soundness reading: by its name no group check; what IS enforced is the
+        # curve equation on the witnessed coordinates
+        OKP_ = "Ok::<EdwardsProjective, SynthesisError>"
+        cvf(Fn("new_variable_omit_prime_order_check", props=(tag,), preamble=bu,
+               subst=[("R7", r'impl\s+Into<ark_relations::r1cs::Namespace<Fq>>', 'Namespace<Fq>'), ("R7", r'\bcs\.into\(\)', 'cs'),
+                      ("R7", r'\bAffineVar::new_variable_omit_prime_order_check\(', 'Decaf377EdwardsVar::new_variable_omit_prime_order_check(')],
+               requires="call_requires(f, ())",
+               ensures="match r { Ok(e) => !(mode is Constant) ==> on_curve(pv(e)), Err(_) => true }"))
+    else:
+        # ---- AllocVar<Element>::new_variable, completeness reading (C13: "every allocation mode"): for the honest prover --
+        # the hint closure returns an element that is on the curve and whose encoding decodes to an element equal to it, which
+        # is what C06 establishes for every Element the API hands out -- synthesis succeeds (the in-circuit decoding of the
+        # witnessed encoding exists and the equality constraint with the witnessed coordinates holds) and the variable
+        # denotes the native element: its canonical representative (Witness) or its affine form (Constant)
+        S_ = "s_var.val()"
+        dec_post = f"match r {{ Ok(e) => pv(e) == spec_decode({S_})->Some_0, Err(_) => false }}"
+        dec_req = f"spec_decode({S_}) is Some"
+        pf = pe = None
+        for it_ in r1.unit(mode).items:
+            if it_.mode == "verify" and it_.file == INN:
+                for f_ in it_.fns:
+                    if f_.name == "decompress_from_field" and not f_.variant:
+                        pf = f_
+                    if f_.name == "conditional_enforce_equal" and not f_.variant:
+                        pe = f_
+        nrm = lambda t: re.sub(r'\s+', ' ', t or '').strip()
+        if pf is None or nrm(pf.ensures) != nrm(dec_post) or nrm(pf.requires) != nrm(dec_req):
+            from vx.rsscan import LostAnchor
+            raise LostAnchor("imported contract r1cs_compl :: decompress_from_field differs from the proving unit's contract")
+        if pe is None or nrm(pe.requires) != "should_enforce.bval() ==> spec_eq(pv(*self), pv(*other))" or nrm(pe.ensures) != "r is Ok":
+            from vx.rsscan import LostAnchor
+            raise LostAnchor("imported contract r1cs_compl :: conditional_enforce_equal differs from the proving unit's contract")
+        items.append(Item(INN, "impl ElementVar", [Fn("decompress_from_field", requires=dec_req, ensures=dec_post)], mode="stub", proved_in="r1cs_compl"))
+        extra_lem = NV_COMPL_LEMMAS + """
+impl ElementVar {
+    // EqGadget::enforce_equal (arkworks default method) = conditional_enforce_equal(other, &Boolean::TRUE), whose contract is
+    // proved in r1cs_compl
+    #[verifier::external_body]
+    pub fn enforce_equal(&self, other: &ElementVar) -> (r: Result<(), SynthesisError>)
+        requires spec_eq(pv(*self), pv(*other))
+        ensures r is Ok
+    { unimplemented!() }
+}
+"""
+        OKP = "Ok::<EdwardsProjective, SynthesisError>"
+        nvc = [("R7", r'core::borrow::Borrow<', 'Borrow<'),
+               ("R7", r'impl\s+Into<ark_relations::r1cs::Namespace<Fq>>', 'Namespace<Fq>'), ("R7", r'\bcs\.into\(\)', 'cs'),
+               ("R8", r'\bns!\(\s*(\w+)\s*,\s*"[^"]*"\s*\)', r'\1.clone()'),
+               ("R7", r'\bAffineVar::new_variable_omit_prime_order_check\(', 'Decaf377EdwardsVar::new_variable_omit_prime_order_check('),
+               # R9: closures carry their specification explicitly (Verus does not look inside a closure body)
+               ("R9", r'let f = \|\| Ok\(\*f\(\)\?\.borrow\(\)\);',
+                """let ghost f0_ = f; let f = || -> (q_: Result<Element, SynthesisError>) requires call_requires(f, ())
+                    ensures match q_ { Ok(v_) => exists|t_: T| call_ensures(f, (), Ok::<T, SynthesisError>(t_)) && v_ == t_.borrow_spec(), Err(_) => exists|e_: SynthesisError| call_ensures(f, (), Err::<T, SynthesisError>(e_)) }
+                    { Ok(*f()?.borrow()) };"""),
+               ("R9", r'\|\|\s*Ok\((\w+)\.inner\)', rf'|| -> (q_: Result<EdwardsProjective, SynthesisError>) ensures q_ == {OKP}(\1.inner) {{ Ok(\1.inner) }}'),
+               ] + r1.r9_rules() + [
+               ("R20", r'let group_projective_point = f\(\)\?;', r'let group_projective_point = f()?; proof { lemma_nv_honest(repr(group_projective_point.inner)); }'),
+               ("R20", r'(\w+)\.enforce_equal\(&(\w+)\)\?;', r'proof { lemma_nv_eq(repr(group_projective_point.inner), pv(\2), pv(\1)); } \1.enforce_equal(&\2)?;')]
+        items.append(Item(INN, "impl AllocVar<Element, Fq> for ElementVar", [Fn(
+            "new_variable", props=(tag,), preamble=bu + " broadcast use repr_range;", subst=nvc,
+            requires=NV_REQ("T", "repr(q->Ok_0.borrow_spec().inner)"),
+            ensures="match r { Ok(e) => exists|t: T| call_ensures(f, (), Ok::<T, SynthesisError>(t)) && nv_rel(mode, repr(t.borrow_spec().inner), pv(e)), Err(_) => false }",
+            tag="C13: allocating the honest prover's element succeeds in Constant and Witness mode and denotes that element")],
+            header_out="impl ElementVar"))
+        cvf(Fn("new_variable_omit_prime_order_check", props=(tag,), preamble=bu,
+               subst=[("R7", r'impl\s+Into<ark_relations::r1cs::Namespace<Fq>>', 'Namespace<Fq>'), ("R7", r'\bcs\.into\(\)', 'cs'),
+                      ("R7", r'\bAffineVar::new_variable_omit_prime_order_check\(', 'Decaf377EdwardsVar::new_variable_omit_prime_order_check('),
+                      ("R9", r'\|\|\s*Ok\((\w+)\.inner\)', rf'|| -> (q_: Result<EdwardsProjective, SynthesisError>) ensures q_ == {OKP}(\1.inner) {{ Ok(\1.inner) }}')],
+               requires="""call_requires(f, ()), !(mode is Constant) ==> !cs_none(ns_cs(cs)),
+                   forall|q: Result<Element, SynthesisError>| #[trigger] call_ensures(f, (), q) ==> q is Ok && on_curve(repr(q->Ok_0.inner))""",
+               ensures="""match r { Ok(e) => exists|t: Element| call_ensures(f, (), Ok::<Element, SynthesisError>(t)) && proj_eq(pv(e), repr(t.inner)) && on_curve(pv(e)), Err(_) => false }"""))
+    u = Unit(name=f"r1cs_fwd_{mode}", preludes=r1.base_preludes() + [("curve_spec.rs", None), ("r1cs.rs", None), ("r1cs_group.rs", None)] + ([] if sound else r1.more_preludes()),
              items=items, lemmas=lem + FWD_LEMMAS + extra_lem + "\n".join(spec_impls), params=fq, global_subst=[])
     u.raw = [(INN, "struct", "ElementVar")]
     u.raw_strip = ("Clone",)
     u.tail_assert = True
     return u
+
+
+def NV_REQ(T, view):
+    return f"""call_requires(f, ()), !(mode is Input), !(mode is Constant) ==> !cs_none(ns_cs(cs)),
+                forall|q: Result<{T}, SynthesisError>| #[trigger] call_ensures(f, (), q) ==> q is Ok && elem_ok({view})"""
+
+
+NV_COMPL_SPECS = r"""
+// the honest prover's element: on the curve, and its encoding decodes to an element equal to it (C06 for every Element)
+pub open spec fn elem_ok(p: P4) -> bool { on_curve(p) && spec_decode(spec_encode(p)) is Some && spec_eq(spec_decode(spec_encode(p))->Some_0, p) }
+// what the allocated variable denotes: the canonical representative of the element (Witness: the in-circuit decoding of its
+// encoding) or its affine form (Constant)
+pub open spec fn nv_rel(mode: AllocationMode, p: P4, v: P4) -> bool {
+    if mode is Witness { spec_decode(spec_encode(p)) is Some && v == spec_decode(spec_encode(p))->Some_0 } else { proj_eq(v, p) && on_curve(v) }
+}
+"""
+
+NV_COMPL_LEMMAS = NV_COMPL_SPECS + r"""
+pub proof fn lemma_nv_honest(p: P4) ensures true { }
+// equality of group elements does not depend on the projective scaling of one side:
+// q == p as group elements (cross-multiplication), pa the affine form of p  ==>  q == pa
+pub proof fn lemma_nv_eq(p: P4, pa: P4, q: P4)
+    requires spec_eq(q, p), proj_eq(pa, p), pa.z == 1, p.z != 0,
+             in_fq(p.x), in_fq(p.y), in_fq(p.z), in_fq(pa.x), in_fq(pa.y), in_fq(q.x), in_fq(q.y)
+    ensures spec_eq(q, pa)
+{
+    let z = p.z;
+    // (q.x * pa.y) * z == q.x * p.y == q.y * p.x == (q.y * pa.x) * z
+    lemma_cong_fmul(pa.x, z); lemma_cong_fmul(p.x, 1int); lemma_cong_fmul(pa.y, z); lemma_cong_fmul(p.y, 1int);
+    lemma_cong_fmul(q.x, pa.y); lemma_cong_fmul(q.y, pa.x); lemma_cong_fmul(q.x, p.y); lemma_cong_fmul(q.y, p.x);
+    lemma_cong_mul(fmul(q.x, pa.y), q.x * pa.y, z, z); lemma_cong_mul(fmul(q.y, pa.x), q.y * pa.x, z, z);
+    lemma_cong_fmul(fmul(q.x, pa.y), z); lemma_cong_fmul(fmul(q.y, pa.x), z);
+    lemma_cong_mul(q.x, q.x, pa.y * z, p.y * 1); lemma_cong_mul(q.y, q.y, pa.x * z, p.x * 1);
+    assert((q.x * pa.y) * z == q.x * (pa.y * z)) by(nonlinear_arith);
+    assert((q.y * pa.x) * z == q.y * (pa.x * z)) by(nonlinear_arith);
+    assert(q.x * (p.y * 1) == q.x * p.y && q.y * (p.x * 1) == q.y * p.x) by(nonlinear_arith);
+    lemma_fmul_range(q.x, pa.y); lemma_fmul_range(q.y, pa.x);
+    lemma_cancel_r(fmul(q.x, pa.y), fmul(q.y, pa.x), z);
+}
+"""
 
 
 OUTER_LEMMAS = r"""
@@ -230,29 +341,41 @@ pub open spec fn ov(e: ElementVar) -> P4 { lz_pt(e.inner) }
 //#if SOUND
 pub open spec fn dec_rel_s(s: int, p: P4) -> bool { !is_neg(s) && exists|v0: int| #[trigger] isqrt_weak(dec_den(s), true, v0) && p == spec_decode_v(s, v0) }
 pub open spec fn wit_rel_s(s: int, q: P4) -> bool { exists|p: P4| #[trigger] dec_rel_s(s, p) && (q == p || (spec_eq(q, p) && on_curve(q))) }
+//#endif
 impl Borrow<Fq> for Fq { open spec fn borrow_spec(&self) -> Fq { *self } fn borrow(&self) -> (r: &Fq) { self } }
 // native affine point type of the crate (A-ARK-2): only its conversion to a group element is used here
 #[derive(Clone, Copy)]
 pub struct AffinePoint { pub inner: EdwardsProjective }
+pub uninterp spec fn aff_group(a: AffinePoint) -> Element;
 impl AffinePoint {
     #[verifier::external_body]
-    pub fn into_group(self) -> (r: Element) { unimplemented!() }
+    pub fn into_group(self) -> (r: Element) ensures r == aff_group(self) { unimplemented!() }
 }
 impl Borrow<AffinePoint> for AffinePoint { open spec fn borrow_spec(&self) -> AffinePoint { *self } fn borrow(&self) -> (r: &AffinePoint) { self } }
 impl FqVar {
-    // AllocVar<Fq, Fq> for FpVar: nothing is promised about a witnessed value in the soundness reading
+    // AllocVar<Fq, Fq> for FpVar.  SOUND: nothing is promised about a witnessed value.  COMPL: the variable holds the hint's
+    // value (allocation needs a constraint system unless the mode is Constant, and the hint closure must answer)
     #[verifier::external_body]
     pub fn new_variable<T: Borrow<Fq>, G: FnOnce() -> Result<T, SynthesisError>>(cs: ConstraintSystemRef<Fq>, f: G, mode: AllocationMode) -> (r: Result<FqVar, SynthesisError>)
+//#if COMPL
+        requires call_requires(f, ()), !(mode is Constant) ==> !cs_none(cs),
+                 forall|q: Result<T, SynthesisError>| #[trigger] call_ensures(f, (), q) ==> q is Ok
+        ensures match r { Ok(x) => exists|t: T| call_ensures(f, (), Ok::<T, SynthesisError>(t)) && x.val() == t.borrow_spec().val(), Err(_) => false }
+//#endif
     { unimplemented!() }
 }
 impl ElementVar {
     // AllocVar::new_input (arkworks default method) = <ElementVar as AllocVar<Fq, Fq>>::new_variable(cs, f, Input): contract of new_variable#fq below
     #[verifier::external_body]
     pub fn new_input<G: FnOnce() -> Result<Fq, SynthesisError>>(cs: ConstraintSystemRef<Fq>, f: G) -> (r: Result<ElementVar, SynthesisError>)
+//#if COMPL
+        requires call_requires(f, ()), !cs_none(cs), forall|q: Result<Fq, SynthesisError>| #[trigger] call_ensures(f, (), q) ==> q is Ok
+        ensures match r { Ok(e) => lz_from_enc(e.inner) && exists|t: Fq| call_ensures(f, (), Ok::<Fq, SynthesisError>(t)) && lz_enc(e.inner) == t.val(), Err(_) => false }
+//#else
         ensures match r { Ok(e) => lz_from_enc(e.inner), Err(_) => true }
+//#endif
     { unimplemented!() }
 }
-//#endif
 // COMPL: every forcing of this variable succeeds
 pub open spec fn ok_var(e: ElementVar) -> bool { lz_from_enc(e.inner) ==> spec_decode(lz_enc(e.inner)) is Some }
 """
@@ -415,6 +538,72 @@ def outer_unit(mode):
           ensures="match r { Ok(e) => mode is Witness ==> !lz_from_enc(e.inner) && exists|s: int| #[trigger] wit_rel_s(s, ov(e)), Err(_) => true }",
           tag="C14: witnessed coordinates cannot be forged (AffinePoint entry point)"))
 
+    if sound:
+        po = None
+        for it_ in fwd_unit(mode).items:
+            if it_.mode == "verify" and it_.header == cv:
+                for f_ in it_.fns:
+                    if f_.name == "new_variable_omit_prime_order_check":
+                        po = f_
+        if po is None:
+            from vx.rsscan import LostAnchor
+            raise LostAnchor("imported contract r1cs_fwd_sound :: new_variable_omit_prime_order_check not found in the proving unit")
+        items.append(Item(INN, cv, [Fn("new_variable_omit_prime_order_check", requires=po.requires, ensures=po.ensures.replace("pv(", "pvi("),
+                                       subst=[("R7", r'impl\s+Into<ark_relations::r1cs::Namespace<Fq>>', 'ConstraintSystemRef<Fq>')] + ren)],
+                          mode="stub", proved_in=fwd, header_out="impl InnerElementVar"))
+        o(cvo, Fn("new_variable_omit_prime_order_check", props=(tag,), preamble=bu, subst=plumb,
+                  requires="call_requires(f, ())",
+                  ensures="match r { Ok(e) => !lz_from_enc(e.inner) && (!(mode is Constant) ==> on_curve(ov(e))), Err(_) => true }"))
+    if not sound:
+        plumb = [("R7", r'core::borrow::Borrow<', 'Borrow<'), ("R7", r'(?<![\w:])Borrow<', 'Borrow<'),
+                 ("R7", r'impl\s+Into<ark_relations::r1cs::Namespace<Fq>>', 'Namespace<Fq>'), ("R7", r'\bcs\.into\(\)', 'cs')]
+        # imported: the two inner allocation functions (proved in r1cs_fwd_compl); their first argument is converted by
+        # `Into<Namespace>` (the identity on a constraint-system reference), so `ns_cs(cs)` of the proving contract reads `cs` here
+        pf = po = None
+        for it_ in fwd_unit(mode).items:
+            if it_.mode == "verify" and it_.header == "impl AllocVar<Element, Fq> for ElementVar":
+                pf = it_.fns[0]
+            if it_.mode == "verify" and it_.header == cv:
+                for f_ in it_.fns:
+                    if f_.name == "new_variable_omit_prime_order_check":
+                        po = f_
+        if pf is None or po is None:
+            from vx.rsscan import LostAnchor
+            raise LostAnchor("imported contracts r1cs_fwd_compl :: new_variable / new_variable_omit_prime_order_check not found in the proving unit")
+        imp = lambda t: (t or "").replace("ns_cs(cs)", "cs").replace("pv(", "pvi(")
+        isub = [("R7", r'core::borrow::Borrow<', 'Borrow<'), ("R7", r'impl\s+Into<ark_relations::r1cs::Namespace<Fq>>', 'ConstraintSystemRef<Fq>')] + ren
+        items.append(Item(INN, "impl AllocVar<Element, Fq> for ElementVar", [Fn("new_variable", requires=imp(pf.requires), ensures=imp(pf.ensures), subst=isub)],
+                          mode="stub", proved_in=fwd, header_out="impl InnerElementVar"))
+        items.append(Item(INN, cv, [Fn("new_variable_omit_prime_order_check", requires=imp(po.requires), ensures=imp(po.ensures), subst=isub)],
+                          mode="stub", proved_in=fwd, header_out="impl InnerElementVar"))
+        HON = lambda T, extra: f"""call_requires(f, ()), !(mode is Constant) ==> !cs_none(ns_cs(cs)),
+                forall|q: Result<{T}, SynthesisError>| #[trigger] call_ensures(f, (), q) ==> q is Ok{extra}"""
+        o("impl AllocVar<Fq, Fq> for ElementVar", Fn("new_variable", variant="#fq", props=(tag,), preamble=bu, subst=plumb,
+          requires=HON("T", ""),
+          ensures="match r { Ok(e) => lz_from_enc(e.inner) && exists|t: T| call_ensures(f, (), Ok::<T, SynthesisError>(t)) && lz_enc(e.inner) == t.borrow_spec().val(), Err(_) => false }",
+          tag="C13: allocating an encoding succeeds in every mode and holds the offered value"))
+        ELEM_POST = lambda P: f"""(if mode is Input {{ lz_from_enc(e.inner) && lz_enc(e.inner) == spec_encode({P}) }} else {{ !lz_from_enc(e.inner) && nv_rel(mode, {P}, ov(e)) }}) && ok_var(e)"""
+        o("impl AllocVar<Element, Fq> for ElementVar", Fn("new_variable", variant="#element", props=(tag,), preamble=bu,
+          subst=plumb + [("R9", r'Self::new_input\(cs, \|\| Ok\((\w+)\)\)',
+                          r'Self::new_input(cs, || -> (q_: Result<Fq, SynthesisError>) ensures q_ == Ok::<Fq, SynthesisError>(\1) { Ok(\1) })')],
+          requires=HON("T", " && elem_ok(repr(q->Ok_0.borrow_spec().inner))"),
+          ensures=f"match r {{ Ok(e) => exists|t: T| call_ensures(f, (), Ok::<T, SynthesisError>(t)) && {ELEM_POST('repr(t.borrow_spec().inner)')}, Err(_) => false }}",
+          tag="C13: allocating the honest prover's element succeeds in every mode (Input: as its encoding) and denotes that element"))
+        o("impl AllocVar<AffinePoint, Fq> for ElementVar", Fn("new_variable", variant="#affine", props=(tag,), preamble=bu,
+          subst=plumb + [("R13b", r'\bSelf::new_variable\(', 'Self::new_variable__element('),
+                         ("R9", r'\|\|\s*f\(\)\.map\(\|b\|\s*b\.borrow\(\)\.into_group\(\)\)',
+                          """|| -> (q_: Result<Element, SynthesisError>) requires call_requires(f, ())
+                    ensures match q_ { Ok(v_) => exists|t_: T| call_ensures(f, (), Ok::<T, SynthesisError>(t_)) && v_ == aff_group(t_.borrow_spec()), Err(_) => exists|e_: SynthesisError| call_ensures(f, (), Err::<T, SynthesisError>(e_)) }
+                    { f().map(|b: T| -> (g_: Element) ensures g_ == aff_group(b.borrow_spec()) { b.borrow().into_group() }) }""")],
+          requires=HON("T", " && elem_ok(repr(aff_group(q->Ok_0.borrow_spec()).inner))"),
+          ensures=f"match r {{ Ok(e) => exists|t: T| call_ensures(f, (), Ok::<T, SynthesisError>(t)) && {ELEM_POST('repr(aff_group(t.borrow_spec()).inner)')}, Err(_) => false }}",
+          tag="C13: AffinePoint entry point of the honest allocation"))
+        o(cvo, Fn("new_variable_omit_prime_order_check", props=(tag,), preamble=bu,
+                  subst=plumb + [("R9", r'\|\|\s*Ok\(ge\)', '|| -> (q_: Result<Element, SynthesisError>) ensures q_ == Ok::<Element, SynthesisError>(ge) { Ok(ge) }')],
+                  requires="""call_requires(f, ()), !(mode is Constant) ==> !cs_none(ns_cs(cs)),
+                      forall|q: Result<Element, SynthesisError>| #[trigger] call_ensures(f, (), q) ==> q is Ok && on_curve(repr(q->Ok_0.inner))""",
+                  ensures="""match r { Ok(e) => !lz_from_enc(e.inner) && exists|t: Element| call_ensures(f, (), Ok::<Element, SynthesisError>(t)) && proj_eq(ov(e), repr(t.inner)) && on_curve(ov(e)), Err(_) => false }"""))
+
     # ---- src/ark_curve/r1cs/ops.rs
     def oop(hdr, tr, m, rhs_t, rhs_view, post, assign=False, rhs_ok=None):
         spec_impls.append(_specimpl(tr, m, "ElementVar", rhs_t, "ElementVar", assign))
@@ -444,7 +633,7 @@ def outer_unit(mode):
     oop("impl Add<Element> for ElementVar", "Add", "add", "Element", "repr(other.inner)", "add_post")
     oop("impl AddAssign<Element> for ElementVar", "AddAssign", "add_assign", "Element", "repr(rhs.inner)", "add_post", True)
     u = Unit(name=f"r1cs_outer_{mode}", preludes=r1.base_preludes() + [("curve_spec.rs", None), ("r1cs.rs", None), ("r1cs_group.rs", None)],
-             items=items, lemmas=lem + OUTER_LEMMAS + _ell_spec() + "\n".join(spec_impls), params=fq, global_subst=[])
+             items=items, lemmas=lem + OUTER_LEMMAS + ("" if sound else NV_COMPL_SPECS) + _ell_spec() + "\n".join(spec_impls), params=fq, global_subst=[])
     u.raw = [(OUT, "struct", "ElementVar")]
     u.raw_strip = ("Clone", "Debug")
     u.tail_assert = True
